@@ -1,6 +1,8 @@
 """C08 - linker solves its submodels jointly and consistently."""
 from __future__ import annotations
 
+from contracts.c05_solve import SolverDefaults
+
 import itertools
 import random
 import warnings
@@ -223,7 +225,7 @@ from contracts.c05_solve import LinkerSolveContract  # noqa: E402
 
 PROPERTY = PropertySpec(
     id='C08',
-    contracts=list(LINKER_CONTRACTS) + [LinkerSolveContract()],
+    contracts=list(LINKER_CONTRACTS) + [LinkerSolveContract(), SolverDefaults()],
     bounded=[LinkerScripted()],
     level='other',
     explanation='BaseLinker.solve_t (with evaluate_t inlined from source) is executed symbolically for every linker shape of the catalogue '
